@@ -364,7 +364,9 @@ func VerifC16Url() {
 	nd.Reach("C16.url")
 }
 
-var c16Texts = []string{"", "a", "ab cd", "héllo wörld", "日本語 テキスト です", "one two three four", "<b>x & y</b> \"q\" 'r'", "a&amp;b &lt;"}
+var c16Texts = []string{"", "a", "ab cd", "héllo wörld", "日本語 テキスト です", "one two three four", "<b>x & y</b> \"q\" 'r'", "a&amp;b &lt;",
+	// leading, repeated and trailing separators: a string that already fits keeps them
+	"a b ", " a  b  ", "one two  ", " x"}
 var c16Ns = []int{-3, -1, 0, 1, 2, 3, 4, 5, 6, 8, 12, 999, 1000, 1001, 2000}
 
 // VerifC16Truncate: truncate and truncatewords count characters/words, never lengthen a
